@@ -32,7 +32,7 @@ func genC14(r *Rand, tier string, i int) *h.Scenario {
 	p.RefreshW = [3]int{4, 3, 3}
 	p.PQueueAfter = 0
 	p.PLate = 0
-	p.PDelay = 0.1
+	p.PDelay = 0.2 // a cancellation while rendering is still delayed must get through as well
 	p.PClientAdd = 0.6
 	sc := GenBase(r, &p)
 	// "no more refreshing": the program closes its refresh channel once its clients are done,
